@@ -37,7 +37,7 @@ def check(ctx, tier):
     tk.purity("C15.g", fs, "indexing does not modify the array or the caller's index", content_only=True)
     W.report(ctx, tk, "C15.h", fs)
     from .. import hazards as _hz, scopes as _sc
-    _hz.generic(ctx, tk, "C15.z", _sc.scope(tk, "C15", depth=2))
+    _hz.generic(ctx, tk, "C15.z", _sc.scope(tk, "C15", depth=1))
     return {}
 
 
